@@ -57,7 +57,20 @@ def items(tier, seed):
                 continue
             out.append(("%s-%d" % (name, ln), {"fn": name, "len": ln,
                                                "weight": 90 if name in ("adsb.callsign", "tell") else 0}))
+    # call sequences: a long frame, then a short frame, then another long frame through the same function in one run:
+    # every outcome must satisfy the function's claim for ITS frame (no result may depend on an earlier call)
+    for name in SEQ_FUNCS if tier == "quick" else SEQ_FUNCS + SEQ_MORE:
+        out.append(("%s-seq" % name, {"fn": name, "seq": True, "len": 28}))
     return out
+
+
+SEQ_FUNCS = ["adsb.typecode", "common.typecode", "adsb.altitude", "adsb.nic_b", "adsb.version", "adsb.nuc_v", "adsb.category",
+             "adsb.emergency_state", "adsb.tcas_ra", "adsb.selected_heading", "surv.fs", "allcall.capability", "commb.ovc10",
+             "common.allzeros", "common.data", "common.icao"]
+SEQ_MORE = ["adsb.altitude05", "adsb.altitude_diff", "adsb.autopilot", "adsb.nic_s", "adsb.nic_a_c", "adsb.nac_v",
+            "adsb.emergency_squawk", "adsb.is_emergency", "adsb.vertical_mode", "adsb.target_altitude", "surv.dr", "surv.um",
+            "surv.identity", "surv.altitude", "allcall.icao", "commb.is10", "commb.is30", "commb.roll50", "commb.p45",
+            "common.df", "common.idcode"]
 
 
 class _ME:
@@ -112,6 +125,8 @@ def run_item(item):
     spec = D.FUNCS[name]
     f = D.resolve(pm, spec["path"])
     item.encoded(spec["path"])
+    if prm.get("seq"):
+        return run_seq(item, pm, name, spec, f)
     if name == "tell":
         import pyModeS.decoder as dec
         dec.__dict__["print"] = lambda *a, **k: None
@@ -175,3 +190,46 @@ def run_item(item):
                 return D.in_domain_concrete(spec, ctx.conc["msg"]) and D.shape_ok(spec, v, name)
             return H.zand(dom, D.shape_ok(spec, v, name))
         H.decide(item, "%s#%d" % (name, vi), call_sym, call_real, conc, post, cmp=D.cmp_loose, maxpaths=spec.get("maxpaths", 20000))
+
+
+def run_seq(item, pm, name, spec, f):
+    frames = [frame(28, prefix="s0_"), frame(14, prefix="s1_"), frame(28, prefix="s2_")]
+    for fr in frames:
+        item.declare(fr, fr.ov)
+    doms = [D.domain_term(spec, fr, ln) for fr, ln in zip(frames, (28, 14, 28))]
+    path = spec["path"]
+
+    def run():
+        out = []
+        for fr in frames:
+            try:
+                out.append(("ret", f(fr.msg)))
+            except core.Unsupported:
+                raise
+            except Exception as e:      # noqa
+                out.append(("exc", type(e).__name__))
+        return out
+    for p in item.explore(run, maxpaths=60000):
+        if p.kind != "ret":
+            claim = False
+        else:
+            cs = []
+            for (k, v), dom in zip(p.value, doms):
+                if k == "exc":
+                    cs.append(v == "RuntimeError")
+                else:
+                    cs.append(H.zand(dom, D.shape_ok(spec, v, name)))
+            claim = H.zand(*cs)
+
+        def replay(model):
+            msgs = [fr.concrete(model) for fr in frames]
+            r = H.fresh_driver("call_sequence", [[path, [m]] for m in msgs])
+            bad = r[0] != "ret"
+            if not bad:
+                for (k, v), m in zip(r[1], msgs):
+                    if k == "exc":
+                        bad = bad or v != "RuntimeError"
+                    else:
+                        bad = bad or not (D.in_domain_concrete(spec, m) and D.shape_ok(spec, v, name))
+            return bad, {"calls": msgs}, "%s on the sequence -> %r" % (name, H.jsonable(r[1:2])), r
+        item.prove("seq", p.pc, claim, replay)
